@@ -22,13 +22,23 @@
      noauth_slash_path u  no authority, no marker, the path starts with '/'
      host_disp_ok hd h    the text hd h matches the kind of h: empty for the empty host, otherwise
                           non-empty and not starting with ':' / '@'
+     host_fns_ok hp hpo hd   every host returned by Host::parse (hp) / Host::parse_opaque (hpo) satisfies host_disp_ok hd,
+                          and the empty host is displayed as nothing (follows from C03's HostWf: C06_host_fns)
+     set_host_arg_text x  the text Url::set_host hands to the host parser: a bracketed argument whole, otherwise
+                          the text in front of the first ':' (None when the argument starts with ':')
+     host_set_post dbg hd u u' h   u' satisfies wf_b and host_text_ok; scheme, username, password, port, path, query,
+                          fragment read as in u; host_str u' = the display of h (None for the empty host);
+                          host kind = kind of h
+     host_port_post dbg hd u u' h np   the same with port u' = np instead of port u' = port u
+     q_host_port sch rem  what the text behind the host says about the port in quirks::set_host: None = nothing
+                          usable (the old port stays), Some p = parse_port (setter context) returned p
    All theorems are for both build configurations (dbg) and for arbitrary host functions. *)
 From RU Require Import Base.Prelude Base.Utf8 Model.AsciiSet Gen.Tables Model.PercentEncoding
   Model.HostT Model.UrlRecord Model.Parser Model.Setters Model.WF
   Proofs.ListN Proofs.C03_WF Proofs.C06_List Proofs.C06_WFI Proofs.C06_Tail Proofs.C06_Steps Proofs.C06_Suffix
   Proofs.C06_Front Proofs.C06_Atomic Proofs.C06_FragQuery Proofs.C06_Port Proofs.C06_Cred Proofs.C06_Scheme
   Proofs.C06_HostNone Proofs.C06_Host Proofs.C06_PathParser Proofs.C06_Path Proofs.C06_Segments Proofs.C06_PathNoAuth Proofs.C06_Main
-  Proofs.C06_PathMore.
+  Proofs.C06_PathMore Proofs.C03_ReachParts Proofs.C06_Quirks.
 
 (* 1. a mutator that reports failure returns the record unchanged (hence as_str() byte for byte).
    No premise at all: every record, every argument, all thirteen status-returning mutators. *)
@@ -403,3 +413,109 @@ Proof.
   split; (split; [vm_compute; reflexivity|]); intros H; vm_compute in H |- *; try discriminate.
   split; [reflexivity|]. split; reflexivity.
 Qed.
+
+(* 13. Url::set_host(Some x) with the host the code parses made explicit (C06_frame / C06_get only say
+   "exists h", under a hypothesis on ALL hosts): the argument text goes through set_host_arg_text, the host
+   parser of the scheme type returns h, and - outside F-C02-4 (empty host on a URL with a port) and F-C03-5
+   (marker), both refuted by witnesses in C06_known_refuted - the result satisfies the invariant, reads back
+   the display of h as its host and leaves every other component as it was. *)
+Theorem C06_set_host_some : forall dbg hp hpo hd u x u', host_fns_ok hp hpo hd -> wfh u ->
+  (has_authority_b u = false -> path_start u = scheme_end u + 1) ->
+  set_host dbg hp hpo hd u (Some x) = Some (u', SOk) ->
+  exists sch t h, scheme u = Some sch /\ set_host_arg_text x = Some t
+    /\ (if st_is_special (scheme_type_of sch) then hp t else hpo t) = Ok h
+    /\ ((has_authority_b u = true -> hi_of_host h = HI_None -> port u = None) -> host_set_post dbg hd u u' h).
+Proof. intros dbg hp hpo hd u x u' HF [W _]. exact (set_host_some_post dbg hp hpo hd HF u x u' W). Qed.
+Check C06_set_host_some : forall dbg hp hpo hd u x u', host_fns_ok hp hpo hd -> wfh u ->
+  (has_authority_b u = false -> path_start u = scheme_end u + 1) ->
+  set_host dbg hp hpo hd u (Some x) = Some (u', SOk) ->
+  exists sch t h, scheme u = Some sch /\ set_host_arg_text x = Some t
+    /\ (if st_is_special (scheme_type_of sch) then hp t else hpo t) = Ok h
+    /\ ((has_authority_b u = true -> hi_of_host h = HI_None -> port u = None) -> host_set_post dbg hd u u' h).
+Print Assumptions C06_set_host_some.
+
+(* the hypothesis on the host functions follows from C03's HostWf (hence from C02's HostRT / HostOK, and it
+   is what C09_host_model_ok establishes for the host model) *)
+Theorem C06_host_fns : forall hp hpo hd, HostWf hp hpo hd -> host_fns_ok hp hpo hd.
+Proof. exact HostWf_fns_ok. Qed.
+Check C06_host_fns : forall hp hpo hd, HostWf hp hpo hd -> host_fns_ok hp hpo hd.
+Print Assumptions C06_host_fns.
+
+(* 14. the quirks setters that write host, port and path (the other six are definitionally Url setters:
+   q_set_protocol / q_set_username / q_set_password / q_set_search / q_set_hash; their failure atomicity
+   is in C06_atomic).  On a wfh record without the "/." marker (F-C03-5):
+   - quirks::set_port never panics; a success preserves wfh, leaves scheme / username / password / host /
+     path / query / fragment as they were and stores exactly the port the parser's port state (setter
+     context, default port of the scheme) returns for the argument;
+   - quirks::set_hostname: the new host is the one the parser's host state returns for the argument, the
+     result is host_set_post.  The code itself refuses an empty host on a URL with a port, so the class
+     F-C02-4 cannot arise except through the file / empty-argument shortcut, where the premise is kept;
+   - quirks::set_host: the same, and when the text behind the host yields a port (q_host_port) the port
+     reads back as that port (host_port_post), otherwise the old port stays;
+   - quirks::set_pathname does nothing on an opaque path and otherwise IS Url::set_path with the argument
+     or with '/' in front of it, so C06_frame_path / _noauth / _marker (and the exactness theorems) apply. *)
+Theorem C06_frame_quirks : forall dbg hp hpo hd u, host_fns_ok hp hpo hd -> wfh u ->
+  (has_authority_b u = false -> path_start u = scheme_end u + 1) ->
+  (forall v, exists r, q_set_port dbg u v = Some r)
+  /\ (forall v u', q_set_port dbg u v = Some (u', SOk) ->
+        wfh u' /\ same_ids dbg u u' /\ same_back dbg u u'
+        /\ exists sch rem, scheme u = Some sch /\ parse_port CSetter (default_port sch) v = POk (port u', rem))
+  /\ (forall v u', q_set_hostname dbg hp hpo hd u v = Some (u', SOk) ->
+        exists sch h, scheme u = Some sch
+          /\ ((scheme_type_of sch = STFile /\ v = [] /\ h = HDomain []
+               /\ ((has_authority_b u = true -> port u = None) -> host_set_post dbg hd u u' h))
+              \/ ((exists rem, parse_host hp hpo (scheme_type_of sch) v = POk (h, rem))
+                  /\ host_set_post dbg hd u u' h)))
+  /\ (forall v u', q_set_host dbg hp hpo hd u v = Some (u', SOk) ->
+        exists sch h, scheme u = Some sch
+          /\ ((scheme_type_of sch = STFile /\ v = [] /\ h = HDomain []
+               /\ ((has_authority_b u = true -> port u = None) -> host_set_post dbg hd u u' h))
+              \/ (exists rem, parse_host hp hpo (scheme_type_of sch) v = POk (h, rem)
+                  /\ match q_host_port sch rem with
+                     | None => host_set_post dbg hd u u' h
+                     | Some np => host_port_post dbg hd u u' h np
+                     end)))
+  /\ (forall v u', q_set_pathname dbg u v = Some u' ->
+        if is_opaque_b u then u' = u
+        else exists p, (p = v \/ p = 47 :: v) /\ (usv_list v -> usv_list p) /\ set_path dbg u p = Some u').
+Proof. exact quirks_all. Qed.
+Check C06_frame_quirks : forall dbg hp hpo hd u, host_fns_ok hp hpo hd -> wfh u ->
+  (has_authority_b u = false -> path_start u = scheme_end u + 1) ->
+  (forall v, exists r, q_set_port dbg u v = Some r)
+  /\ (forall v u', q_set_port dbg u v = Some (u', SOk) ->
+        wfh u' /\ same_ids dbg u u' /\ same_back dbg u u'
+        /\ exists sch rem, scheme u = Some sch /\ parse_port CSetter (default_port sch) v = POk (port u', rem))
+  /\ (forall v u', q_set_hostname dbg hp hpo hd u v = Some (u', SOk) ->
+        exists sch h, scheme u = Some sch
+          /\ ((scheme_type_of sch = STFile /\ v = [] /\ h = HDomain []
+               /\ ((has_authority_b u = true -> port u = None) -> host_set_post dbg hd u u' h))
+              \/ ((exists rem, parse_host hp hpo (scheme_type_of sch) v = POk (h, rem))
+                  /\ host_set_post dbg hd u u' h)))
+  /\ (forall v u', q_set_host dbg hp hpo hd u v = Some (u', SOk) ->
+        exists sch h, scheme u = Some sch
+          /\ ((scheme_type_of sch = STFile /\ v = [] /\ h = HDomain []
+               /\ ((has_authority_b u = true -> port u = None) -> host_set_post dbg hd u u' h))
+              \/ (exists rem, parse_host hp hpo (scheme_type_of sch) v = POk (h, rem)
+                  /\ match q_host_port sch rem with
+                     | None => host_set_post dbg hd u u' h
+                     | Some np => host_port_post dbg hd u u' h np
+                     end)))
+  /\ (forall v u', q_set_pathname dbg u v = Some u' ->
+        if is_opaque_b u then u' = u
+        else exists p, (p = v \/ p = 47 :: v) /\ (usv_list v -> usv_list p) /\ set_path dbg u p = Some u').
+Print Assumptions C06_frame_quirks.
+
+(* the hypotheses are met: a host function instance (alphanumeric texts), the record "a://h:80/p?q#f", and one
+   successful call of each: set_host("x:81") -> a://x:81/p?q#f, set_hostname("yz"), set_port("9"),
+   set_pathname("z") -> .../z?q#f, and Url::set_host(Some "x:1") -> a://x:80/p?q#f (the port part is ignored) *)
+Example C06_quirks_inhabited :
+  host_fns_ok qx_hp qx_hp qx_hd /\ wfh qx_u /\ (has_authority_b qx_u = false -> path_start qx_u = scheme_end qx_u + 1)
+  /\ (exists u', q_set_host true qx_hp qx_hp qx_hd qx_u [120; 58; 56; 49] = Some (u', SOk)
+                  /\ ser u' = [97;58;47;47;120;58;56;49;47;112;63;113;35;102])
+  /\ (exists u', q_set_hostname true qx_hp qx_hp qx_hd qx_u [121; 122] = Some (u', SOk)
+                  /\ ser u' = [97;58;47;47;121;122;58;56;48;47;112;63;113;35;102])
+  /\ (exists u', q_set_port true qx_u [57] = Some (u', SOk) /\ ser u' = [97;58;47;47;104;58;57;47;112;63;113;35;102])
+  /\ (exists u', q_set_pathname true qx_u [122] = Some u' /\ ser u' = [97;58;47;47;104;58;56;48;47;122;63;113;35;102])
+  /\ (exists u', set_host true qx_hp qx_hp qx_hd qx_u (Some [120; 58; 49]) = Some (u', SOk)
+                  /\ ser u' = [97;58;47;47;120;58;56;48;47;112;63;113;35;102]).
+Proof. split; [exact qx_fns_ok | exact quirks_inhabited]. Qed.
